@@ -416,8 +416,50 @@ class Engine(Interp, ExecMixin, EvalMixin, CallMixin, BuiltinMixin):
         st.frames.pop()
 
     def closure_env(self, st, module, qual):
-        """Free variables of a nested function (closure) are bound from `closure` tables of the contract."""
-        return {}
+        """A nested function (a check registered inside register_checks, ...) may read and update locals of the enclosing
+        function; those survive between calls, so at the entry of any one call they hold ARBITRARY values of the kind of their
+        initialiser.  Only free names that the enclosing function assigns are bound; anything else stays unresolved."""
+        parts = qual.split(".")
+        if len(parts) < 2:
+            return {}
+        try:
+            mod = front.load_module(module)
+            outer = front.find_def(mod, ".".join(parts[:-1]))
+            inner = front.find_def(mod, qual)
+        except OutsideSubset:
+            return {}
+        if not isinstance(outer, ast.FunctionDef):
+            return {}
+        own = {a.arg for a in inner.args.args} | set()
+        for n in ast.walk(inner):
+            if isinstance(n, ast.Name) and isinstance(n.ctx, ast.Store):
+                own.add(n.id)
+            if isinstance(n, ast.comprehension):
+                for t in ast.walk(n.target):
+                    if isinstance(t, ast.Name):
+                        own.add(t.id)
+        used = {n.id for n in ast.walk(inner) if isinstance(n, ast.Name) and isinstance(n.ctx, ast.Load)} - own
+        env = {}
+        for s_ in outer.body:
+            tgt, val = None, None
+            if isinstance(s_, ast.Assign) and len(s_.targets) == 1 and isinstance(s_.targets[0], ast.Name):
+                tgt, val = s_.targets[0].id, s_.value
+            elif isinstance(s_, ast.AnnAssign) and isinstance(s_.target, ast.Name) and s_.value is not None:
+                tgt, val = s_.target.id, s_.value
+            if tgt is None or tgt not in used:
+                continue
+            if isinstance(val, ast.List):
+                env[tgt] = Z(T("seq", (T("dyn"),)), st.fresh("closure_" + tgt, z3.SeqSort(Dyn)))
+            elif isinstance(val, ast.Dict):
+                env[tgt] = Z(T("dyn"), st.fresh("closure_" + tgt, Dyn))
+            elif isinstance(val, ast.Constant) and isinstance(val.value, bool):
+                env[tgt] = zbool(st.fresh("closure_" + tgt, Bool))
+            elif isinstance(val, ast.Constant) and isinstance(val.value, int):
+                env[tgt] = zint(st.fresh("closure_" + tgt, Int))
+            elif isinstance(val, ast.Constant) and val.value is None:
+                b = st.fresh("closure_" + tgt + "_isnone", Bool)
+                env[tgt] = Union([(b, NONE), (z3.Not(b), Z(T("dyn"), st.fresh("closure_" + tgt, Dyn)))])
+        return env
 
     def coerce_result(self, st, res, ann):
         t = self.resolve_T(parse_T(ann))
